@@ -15,7 +15,7 @@ PROPS = {
                       "arrayvec's Zeroize impl, of Formatter::debug_struct / DebugStruct::{field, finish}, derive(Debug) "
                       "of Platform; bytes outside the abstract view (padding, ArrayVec spare capacity, copies left by moves) "
                       "are not modelled",
-        "units": {"quick": [v("secrets")], "thorough": [s("C17")]},
+        "units": {"quick": [v("secrets"), g("zeroize_volatile")], "thorough": [s("C17")]},
         "explanation": "The repo's `impl Zeroize for T` blocks are kept as impls of a prelude trait whose contract is "
                        "`final(self).zeroed()`; `zeroed()` is defined per repo type in contracts/secrets.vc from the property "
                        "text (all fields but `platform`), so a forgotten `.zeroize()` call is a failed postcondition; the "
